@@ -293,6 +293,11 @@ func (ev *evaluator) check(c *Ctx, sortRule, arityRule, exhaustRule string) {
 					return true
 				}
 				stack = append(stack, n)
+				// a clause shared by several productions tells them apart by the length of the body (`if len(rhs) > 1 {…}`):
+				// a branch that the length of THIS production's body rules out is not run for it
+				if ev.deadForBody(stack, len(cs.prod.body)) {
+					return true
+				}
 				if e, ok := n.(ast.Expr); ok {
 					if k, ok := ev.rhsIndex(e); ok {
 						c.Check(arityRule, fmt.Sprintf("%s: rhs[%d] within the body", key, k), e.Pos(), k >= 0 && k < len(cs.prod.body),
@@ -380,4 +385,62 @@ func trimMod(p string) string {
 		return p[len(modPath)+1:]
 	}
 	return p
+}
+
+
+// deadForBody: some enclosing `if` compares len(rhs) with a constant and, for a body of n symbols, the branch the innermost
+// node sits in is not taken.
+func (ev *evaluator) deadForBody(stack []ast.Node, n int) bool {
+	info := ev.pkg.TypesInfo
+	for j := 0; j+1 < len(stack); j++ {
+		ifs, ok := stack[j].(*ast.IfStmt)
+		if !ok {
+			continue
+		}
+		b, ok := ast.Unparen(ifs.Cond).(*ast.BinaryExpr)
+		if !ok {
+			continue
+		}
+		call, ok := ast.Unparen(b.X).(*ast.CallExpr)
+		if !ok || len(call.Args) != 1 {
+			continue
+		}
+		fid, ok := call.Fun.(*ast.Ident)
+		if !ok || fid.Name != "len" {
+			continue
+		}
+		aid, ok := ast.Unparen(call.Args[0]).(*ast.Ident)
+		if !ok || info.Uses[aid] != types.Object(ev.rhsParam) {
+			continue
+		}
+		k, ok := constInt(info, b.Y)
+		if !ok {
+			continue
+		}
+		var holds bool
+		switch b.Op {
+		case token.EQL:
+			holds = int64(n) == k
+		case token.NEQ:
+			holds = int64(n) != k
+		case token.LSS:
+			holds = int64(n) < k
+		case token.LEQ:
+			holds = int64(n) <= k
+		case token.GTR:
+			holds = int64(n) > k
+		case token.GEQ:
+			holds = int64(n) >= k
+		default:
+			continue
+		}
+		next := stack[j+1]
+		if next == ast.Node(ifs.Body) && !holds {
+			return true
+		}
+		if ifs.Else != nil && next == ast.Node(ifs.Else) && holds {
+			return true
+		}
+	}
+	return false
 }
